@@ -961,5 +961,193 @@ theorem tree_labels_optimal {I : Inst α} {ok : Nat → Bool} {c : Nat → α} (
   · intro _ _ _ htar; cases htar
   · intro _ _ s h; cases h
 
+/-! ### Admissibility from consistency (how the premise is discharged in practice) -/
+
+/-- a potential that is consistent on valid edges and non-positive at the target is admissible -/
+theorem admissible_of_consistent {I : Inst α} {ok : Nat → Bool} {c hv : Nat → α} {t : Nat}
+    (hcons : ∀ v, ∀ e ∈ I.incident v, ok e = true → hv v ≤ c e + hv (I.keyV e))
+    (ht : hv t ≤ 0) : Admissible I ok c hv t := by
+  have key : ∀ (es : List Nat) (v : Nat), Walk I ok v es t → hv v ≤ cost c es + hv t := by
+    intro es
+    induction es with
+    | nil =>
+      intro v hw
+      simp only [Walk] at hw
+      subst hw
+      simp [cost]
+    | cons e es ih =>
+      intro v hw
+      obtain ⟨hok, hinc, hterm, hrest⟩ := hw
+      subst hterm
+      have h1 := hcons _ e hinc hok
+      have h2 := ih _ hrest
+      simp only [cost]
+      linarith
+  intro v es hw
+  have := key es v hw
+  linarith
+
+/-- anything below an admissible heuristic is admissible -/
+theorem Admissible.mono {I : Inst α} {ok : Nat → Bool} {c hv hv' : Nat → α} {t : Nat}
+    (h : Admissible I ok c hv t) (hle : ∀ v, hv' v ≤ hv v) : Admissible I ok c hv' t :=
+  fun v es hw => le_trans (hle v) (h v es hw)
+
+/-! ### Non-vacuity: a concrete instance over ℚ
+
+Four vertices `0..3`, seven edges (edge 6 is a forbidden shortcut `0 → 3`, edge 5 closes a cycle),
+a non-zero heuristic that is admissible for target 3 but *not* consistent
+(`exH 0 = 3 > c(0→1) + exH 1 = 1`), so the premises of every theorem above are jointly
+satisfiable, and the A* run below really re-labels vertex 2 and vertex 3. -/
+
+namespace Example
+
+def exIncident : Nat → List Nat
+  | 0 => [0, 1, 6]
+  | 1 => [2, 4]
+  | 2 => [3]
+  | 3 => [5]
+  | _ => []
+
+def exTermV : Nat → Nat
+  | 0 => 0 | 1 => 0 | 2 => 1 | 3 => 2 | 4 => 1 | 5 => 3 | _ => 0
+
+def exKeyV : Nat → Nat
+  | 0 => 1 | 1 => 2 | 2 => 2 | 3 => 3 | 4 => 3 | 5 => 0 | _ => 3
+
+def exCost : Nat → ℚ
+  | 0 => 1 | 1 => 4 | 2 => 1 | 3 => 1 | 4 => 5 | 5 => 1 | _ => 1
+
+def exOk (e : Nat) : Bool := e != 6
+
+/-- admissible for target 3, not consistent -/
+def exH : Nat → ℚ
+  | 0 => 3 | 2 => 1 | _ => 0
+
+/-- the true distance to vertex 3 (a consistent potential) -/
+def exDist : Nat → ℚ
+  | 0 => 3 | 1 => 2 | 2 => 1 | _ => 0
+
+def exInst : Inst ℚ where
+  incident := exIncident
+  keyV := exKeyV
+  termV := exTermV
+  init := []
+  valid := fun e _ _ => .ok (exOk e)
+  trav := fun e _ st => .ok (1 / 4, exCost e - 1 / 4, st)
+  h := fun v _ => .ok (exH v)
+  term := fun _ _ => .ok ()
+
+theorem exCost_pos (e : Nat) : 0 < exCost e := by
+  unfold exCost; split <;> norm_num
+
+theorem ex_uniform : Uniform exInst exOk exCost exH where
+  incident_term := by
+    intro v e he
+    match v with
+    | 0 => simp [exInst, exIncident] at he; rcases he with rfl | rfl | rfl <;> rfl
+    | 1 => simp [exInst, exIncident] at he; rcases he with rfl | rfl <;> rfl
+    | 2 => simp [exInst, exIncident] at he; subst he; rfl
+    | 3 => simp [exInst, exIncident] at he; subst he; rfl
+    | n + 4 => simp [exInst, exIncident] at he
+  valid_eq := fun _ _ _ => rfl
+  trav_eq := fun e _ st => ⟨1 / 4, exCost e - 1 / 4, st, rfl, by ring⟩
+  cost_pos := exCost_pos
+  h_eq := fun _ _ => rfl
+  h_nonneg := by intro v; unfold exH; split <;> norm_num
+
+theorem ex_nolimit : NoLimit exInst := fun _ _ => rfl
+
+theorem ex_admissible : Admissible exInst exOk exCost exH 3 := by
+  have hd : Admissible exInst exOk exCost exDist 3 := by
+    apply admissible_of_consistent
+    · intro v e he hok
+      match v with
+      | 0 =>
+        simp [exInst, exIncident] at he
+        rcases he with rfl | rfl | rfl
+        · norm_num [exInst, exDist, exCost, exKeyV]
+        · norm_num [exInst, exDist, exCost, exKeyV]
+        · simp [exOk] at hok
+      | 1 =>
+        simp [exInst, exIncident] at he
+        rcases he with rfl | rfl <;> norm_num [exInst, exDist, exCost, exKeyV]
+      | 2 => simp [exInst, exIncident] at he; subst he; norm_num [exInst, exDist, exCost, exKeyV]
+      | 3 => simp [exInst, exIncident] at he; subst he; norm_num [exInst, exDist, exCost, exKeyV]
+      | n + 4 => simp [exInst, exIncident] at he
+    · norm_num [exDist]
+  apply hd.mono
+  intro v
+  match v with
+  | 0 => norm_num [exH, exDist]
+  | 1 => norm_num [exH, exDist]
+  | 2 => norm_num [exH, exDist]
+  | n + 3 =>
+    have h1 : exH (n + 3) = 0 := rfl
+    have h2 : exDist (n + 3) = 0 := rfl
+    rw [h1, h2]
+
+/-- observation of a run's outcome that the kernel can decide (states contain functions) -/
+def labelOf (r : Except ErrKind (SState ℚ)) (v : Nat) : Option (Option ℚ) :=
+  match r with
+  | .ok s => some (s.g v)
+  | .error _ => none
+
+def errOf (r : Except ErrKind (SState ℚ)) : Option ErrKind :=
+  match r with
+  | .ok _ => none
+  | .error k => some k
+
+/-- an accepted, finishing schedule exists for the A* run `0 ⇝ 3`; vertex 2 is re-labelled
+(4 then 2) and vertex 3 too (6 then 3) -/
+theorem ex_run_ok : ∃ s, runAStar exInst 0 (some 3) [0, 1, 2, 3] = .ok s ∧ s.g 3 = some 3 := by
+  have h : labelOf (runAStar exInst 0 (some 3) [0, 1, 2, 3]) 3 = some (some 3) := by
+    decide +kernel
+  cases hr : runAStar exInst 0 (some 3) [0, 1, 2, 3] with
+  | error k => rw [hr] at h; simp [labelOf] at h
+  | ok s =>
+    rw [hr] at h
+    simp only [labelOf, Option.some.injEq] at h
+    exact ⟨s, rfl, h⟩
+
+/-- vertex 7 is isolated: the run towards it ends with "no path" -/
+theorem ex_run_nopath : runAStar exInst 0 (some 7) [0, 1, 2, 3] = .error .noPath := by
+  have h : errOf (runAStar exInst 0 (some 7) [0, 1, 2, 3]) = some .noPath := by
+    decide +kernel
+  cases hr : runAStar exInst 0 (some 7) [0, 1, 2, 3] with
+  | error k =>
+    rw [hr] at h
+    simp only [errOf, Option.some.injEq] at h
+    rw [h]
+  | ok s => rw [hr] at h; simp [errOf] at h
+
+/-- destination-less run: ends with the queue empty -/
+theorem ex_run_tree : ∃ s, runAStar exInst 0 none [0, 1, 2, 3] = .ok s ∧ s.g 3 = some 3 := by
+  have h : labelOf (runAStar exInst 0 none [0, 1, 2, 3]) 3 = some (some 3) := by
+    decide +kernel
+  cases hr : runAStar exInst 0 none [0, 1, 2, 3] with
+  | error k => rw [hr] at h; simp [labelOf] at h
+  | ok s =>
+    rw [hr] at h
+    simp only [labelOf, Option.some.injEq] at h
+    exact ⟨s, rfl, h⟩
+
+/-- the theorems apply: every valid walk `0 ⇝ 3` of the example costs at least 3 (the forbidden
+shortcut edge 6 of cost 1 is not used), and 7 is unreachable -/
+example : ∀ es, Walk exInst exOk 0 es 3 → 3 ≤ cost exCost es := by
+  obtain ⟨s, hrun, hs⟩ := ex_run_ok
+  obtain ⟨d, hd, _, hmin⟩ := label_optimal ex_uniform (by decide) ex_admissible hrun
+  rw [hs] at hd
+  have : (3 : ℚ) = d := by simpa using hd
+  rw [this]; exact hmin
+
+example : ¬ ∃ es, Walk exInst exOk 0 es 7 :=
+  nopath_imp_unreachable ex_uniform.toUniformCost ex_uniform.h_eq ex_nolimit.termNotNoPath
+    ex_run_nopath
+
+example : ∃ es, Walk exInst exOk 0 es 3 ∧ cost exCost es = 3 :=
+  ⟨[0, 2, 3], by simp [Walk, exInst, exOk, exIncident, exTermV, exKeyV], by norm_num [cost, exCost]⟩
+
+end Example
+
 end SearchOpt
 end Compass
